@@ -8,13 +8,13 @@ Import ListNotations.
 Local Open Scope Z_scope.
 Ltac Zify.zify_post_hook ::= Z.div_mod_to_equations.
 
-(* ---------- initStripeState: whatever alignDownStripe returns, the clamps make the stripes a tiling ---------- *)
+(* ---------- initStripeState: whatever the aligned offset is, the clamps make the stripes a tiling ---------- *)
 Lemma stripe_end_range k s e P g i cursor : s <= cursor <= e ->
   cursor <= stripe_end k s e P g i cursor <= e /\ (i + 1 = P -> stripe_end k s e P g i cursor = e).
 Proof.
   intros H. unfold stripe_end. destruct (i + 1 =? P) eqn:L; [apply Z.eqb_eq in L; split; [lia | reflexivity]|].
   apply Z.eqb_neq in L. split; [|intros; lia].
-  set (se := align_down _ _ _).
+  set (se := castk _ _).
   destruct (se <=? cursor) eqn:A; [apply Z.leb_le in A | apply Z.leb_gt in A].
   - destruct (e <=? cursor) eqn:B; [apply Z.leb_le in B | apply Z.leb_gt in B]; lia.
   - destruct (e <=? se) eqn:B; [apply Z.leb_le in B | apply Z.leb_gt in B]; lia.
